@@ -294,9 +294,41 @@ def model_correspondence(res, name, qs, rs, shard=None):
     okc, failing, clog = run_coq_cases(name, IMPORTS, "qcase", "qcheck", cases, shard=shard or min(100, max(8, len(cases) // 16 + 1)), extra_defs=EXTRA, timeout=2400)
     if not okc:
         res.tie_broken("correspondence: evaluating the kkc model failed", clog)
+    # where do they differ?  If the lattice (nodes and forward scores) is the same and the SCORES of the returned texts are not those of
+    # the model's list, the implementation's list is not the n best of its own lattice: the model's list is the kernel-proved optimum
+    # (C02_nbest) for exactly that lattice.  That input is a concrete failing input of the n-best property.
+    diag = {}
+    if failing:
+        sub = [cases[i] for i in failing[:40]]
+        DIAG = EXTRA + """
+Definition lattice_same (q : qcase) : bool :=
+  match from_input (q_input q) (q_dict q) (q_ctx q) with
+  | Ok g => negb (q_panics q) && list_eqb (list_eqb lnode_eqb) (forward_dp (q_ctx q) (q_freq q) g) (q_lattice q)
+  | _ => false
+  end.
+Definition prios_same (q : qcase) : bool :=
+  match from_input (q_input q) (q_dict q) (q_ctx q) with
+  | Ok g => match n_best 200000 (q_ctx q) (q_freq q) (forward_dp (q_ctx q) (q_freq q) g) (q_n q) with
+            | Some r => list_eqb Z.eqb (map c_prio r) (map (fun e => snd (fst e)) (q_cands q))
+            | None => false
+            end
+  | _ => false
+  end.
+"""
+        ok_a, f_a, _ = run_coq_cases(name + "dA", IMPORTS, "qcase", "lattice_same", sub, shard=5, extra_defs=DIAG, timeout=2400)
+        ok_b, f_b, _ = run_coq_cases(name + "dB", IMPORTS, "qcase", "prios_same", sub, shard=5, extra_defs=DIAG, timeout=2400)
+        if ok_a and ok_b:
+            for k, i in enumerate(failing[:40]):
+                diag[i] = ("lattice differs" if k in f_a else ("same lattice, other scores in the list" if k in f_b else "same lattice and scores, other order / chains / texts among equal scores"))
     for i in failing[:10]:
-        res.tie_broken("correspondence: model and implementation differ (lattice, forward scores, or candidate list incl. order and chains)",
-                       {"query": qs[idx[i]], "impl_candidates": [c["text"] for c in rs[idx[i]].get("candidates", [])], "impl_panic": rs[idx[i]].get("panic")})
+        q, r = qs[idx[i]], rs[idx[i]]
+        if name == "C02" and diag.get(i) == "same lattice, other scores in the list":
+            res.violation(f"the list returned for {q['input']!r} (n = {q['n']}) is not the n best distinct texts of the implementation's own lattice: lattice and forward scores equal the model's, "
+                          f"whose list is the proved optimum, but the returned scores {[c['priority'] for c in r.get('candidates', [])][:12]} differ from the optimum's",
+                          {"query": q, "impl_candidates": [(c["text"], c["priority"]) for c in r.get("candidates", [])]})
+            continue
+        res.tie_broken("correspondence: model and implementation differ (%s)" % diag.get(i, "lattice, forward scores, or candidate list incl. order and chains"),
+                       {"query": q, "impl_candidates": [c["text"] for c in r.get("candidates", [])], "impl_panic": r.get("panic")})
     return len(cases)
 
 
